@@ -301,6 +301,12 @@ def train_test(ck, prog):
         i = t[2][1]
         if i[0] == "idx" and i[2][0] == "agg" and i[2][1].endswith("Range::Range"):
             return (i[1], i[2][2][0], i[2][2][1])
+        # `let (head, tail) = indices.split_at(k)`: head = indices[0..k], tail = indices[k..len]
+        if i[0] == "field" and i[2] in ("0", "1") and i[1][0] == "call" and i[1][1].endswith("::split_at") and len(i[1][2]) == 2:
+            vec_, k_ = i[1][2]
+            while vec_[0] == "call" and vec_[1].endswith(("::deref", "::as_slice", "::as_ref")) and vec_[2]:
+                vec_ = vec_[2][0]
+            return (vec_, ("int", 0), k_) if i[2] == "0" else (vec_, k_, ("end",))
         return None
     P = dict(xtr=parts(xtr, 1), xte=parts(xte, 1), ytr=parts(ytr, 2), yte=parts(yte, 2))
     bad = [k for k, v in P.items() if v is None]
@@ -343,7 +349,7 @@ def train_test(ck, prog):
         dn = dim_of(n)
         if not (dn and dn[1][0] == "arg" and dn[1][1] in (1, 2) and dn[0] in ("len", "rows")):
             problems.append(f"n = `{render(n)}` is not the number of samples")
-        if e1_ != n:
+        if e1_ != n and e1_ != ("end",):
             problems.append(f"train slice ends at `{render(e1_)[:60]}`, not n")
     if s2 != ("int", 0):
         problems.append(f"test slice starts at `{render(s2)[:60]}`, not 0")
@@ -374,6 +380,60 @@ def train_test(ck, prog):
         ck.ok(rule, inst, b.path, site, f"n_test = {render(nt)[:80]}")
 
 
+def _polarity_loop_form(ck, prog, b, rule, inst):
+    """loop form: `for i in 0..n { if mask[i] { test.push(i) } else { train.push(i) } }` returning (train, test).
+    returns True when the form was recognised (verdict recorded), False otherwise"""
+    res = Resolver(b)
+    be = guards.back_edges(b)
+    pair = None
+    for i, j, st in b.stmts():
+        r = st["r"] if st["k"] == "assign" else None
+        if r and r["k"] == "agg" and r["ak"] == "tuple" and len(r["ops"]) == 2 and all(o["k"] in ("move", "copy") and not o["p"]["pr"] for o in r["ops"]):
+            ls = [o["p"]["l"] for o in r["ops"]]
+            if all("Vec<usize>" in b.local_ty(l) for l in ls):
+                def src(l, depth=0):
+                    ds = [d for d in b.defs.get(l, []) if d.kind == "assign"]
+                    if depth < 4 and len(b.defs.get(l, [])) == 1 and ds and ds[0].data["r"]["k"] == "use" and \
+                            ds[0].data["r"]["o"]["k"] in ("move", "copy") and not ds[0].data["r"]["o"]["p"]["pr"]:
+                        return src(ds[0].data["r"]["o"]["p"]["l"], depth + 1)
+                    return l
+                pair = [src(l) for l in ls]
+    if not pair:
+        return False
+    pushes = {}
+    for bb, t in b.calls():
+        f = t.get("f")
+        if f and f["path"].endswith("Vec::<T, A>::push") and t["args"][0]["k"] in ("move", "copy"):
+            tgt = b.mutref_of.get(t["args"][0]["p"]["l"])
+            pushes.setdefault(tgt, []).append((bb, res.operand(t["args"][1])))
+    if not (pushes.get(pair[0]) and pushes.get(pair[1])):
+        return False
+    verdicts = []
+    for (sw, term, tb, fb) in guards.bool_switches(b, res):
+        if term[0] != "idx":
+            continue
+        ix = term[2]
+        rt = b.reachable_from([tb], cut_edges=be, cut_blocks=frozenset([fb]))
+        rf = b.reachable_from([fb], cut_edges=be, cut_blocks=frozenset([tb]))
+        t_test = [v for (bb, v) in pushes[pair[1]] if bb in rt and bb not in rf]
+        t_train = [v for (bb, v) in pushes[pair[0]] if bb in rt and bb not in rf]
+        f_test = [v for (bb, v) in pushes[pair[1]] if bb in rf and bb not in rt]
+        f_train = [v for (bb, v) in pushes[pair[0]] if bb in rf and bb not in rt]
+        if not (t_test or t_train or f_test or f_train):
+            continue
+        ok = t_test and f_train and not t_train and not f_test and all(v == ix for v in t_test + f_train)
+        verdicts.append((ok, b.where(sw), render(term)[:60]))
+    if not verdicts:
+        return False
+    if all(v[0] for v in verdicts):
+        ck.ok(rule, inst, b.path, verdicts[0][1], f"loop form: `{verdicts[0][2]}` true -> test.push(position), false -> train.push(position)")
+    else:
+        w = [v for v in verdicts if not v[0]][0]
+        ck.violation(rule, inst, b.path, w[1], expected="mask true -> the position joins the test part (second component), mask false -> the train part",
+                     found=f"the branches on `{w[2]}` push into the wrong part or push something other than the tested position")
+    return True
+
+
 def kfold_polarity(ck, prog):
     rule = "E2c-polarity"
     inst = "KFoldIter::next: (train, test) = (mask false, mask true) over one enumeration"
@@ -397,6 +457,8 @@ def kfold_polarity(ck, prog):
                 comps = [rs.operand(o) for o in r["ops"]]
                 if all(calls_in(c, "Iterator::filter") for c in comps):
                     cand = (bd, comps, bd.where(i, j))
+    if not cand and _polarity_loop_form(ck, prog, nxt, rule, inst):
+        return
     if not cand:
         ck.violation(rule, inst, nxt.path, f"{nxt.loc[0]}:{nxt.loc[1]}", expected="a (train, test) pair built from two filters over the mask", found="no such pair found")
         return
